@@ -7,19 +7,22 @@
 (* windows have a fixed radius and never leave the document.               *)
 (***************************************************************************)
 EXTENDS CoocCore
-CONSTANTS V, N, MaxLen, MaxDocs, Cfgs, EMIT
+CONSTANTS V, N, MaxLen, MaxDocs, Cfgs, EMIT,
+          AllowMask     \* BOOLEAN: the generated corpora may contain the mask token V (positions of pruned tokens, C14)
 Tok == 0..V
 VARIABLES corpus, ci, done
 vars == <<corpus, ci, done>>
 
 Gram(doc, p) == SubSeq(doc, p - N + 1, p)
-Ctx(doc, p, w) == LET r == w.radius[1] IN
+\* with nullify_mask the n-gram made of mask tokens only has radius 0 (its row is zero)
+AllMask(g) == \A i \in DOMAIN g : g[i] = V
+CtxC(cfg, doc, p, w) == LET r == IF cfg.nullify /\ AllMask(Gram(doc, p)) THEN 0 ELSE w.radius[1] IN
                   IF w.orient = "after"
                   THEN [j \in 1..Max2(0, Min2(r, Len(doc) - p)) |-> p + j]
                   ELSE [j \in 1..Max2(0, Min2(r, p - N)) |-> p - N + 1 - j]
 KNum(cfg, w, doc, j, q) == IF j <= w.offset \/ (cfg.nullify /\ doc[q] = V) THEN 0 ELSE KBase(cfg, j)
 WinK(cfg, doc, p, w) ==
-  LET cx == Ctx(doc, p, w)
+  LET cx == CtxC(cfg, doc, p, w)
   IN WinRec(cfg, w, [j \in DOMAIN cx |-> doc[cx[j]]], [j \in DOMAIN cx |-> KNum(cfg, w, doc, j, cx[j])])
 EventsAt(cfg, doc, p) ==
   LET ws == IWins(cfg) IN OccEvents(cfg, Gram(doc, p), [i \in DOMAIN ws |-> WinK(cfg, doc, p, ws[i])])
@@ -35,7 +38,7 @@ DeclCell(cfg, c, i, g, b) ==
      IF SubSeq(c[d], s, s + N - 1) # g THEN 0
      ELSE SumSeq([q \in DOMAIN c[d] |->
             LET k == IF w.orient = "after" THEN q - (s + N - 1) ELSE s - q IN
-            IF k >= 1 /\ k <= w.radius[1] /\ c[d][q] = b /\ k > w.offset /\ ~(cfg.nullify /\ b = V)
+            IF k >= 1 /\ k <= w.radius[1] /\ c[d][q] = b /\ k > w.offset /\ ~(cfg.nullify /\ (b = V \/ AllMask(g)))
             THEN w.mix * KBase(cfg, k) ELSE 0])])])
 Refines == done /\ Plain(Cfgs[ci]) =>
    LET cfg == Cfgs[ci]  cs == Cells(cfg, corpus) IN
@@ -51,7 +54,7 @@ NewDoc == /\ ~done /\ Len(corpus) < MaxDocs
           /\ corpus' = Append(corpus, <<>>) /\ UNCHANGED <<ci, done>>
 HasGram(c) == \E d \in DOMAIN c : Len(c[d]) >= N
 Finish == /\ ~done /\ HasGram(corpus) /\ done' = TRUE /\ UNCHANGED <<corpus, ci>>
-Next == (\E t \in 0..(V - 1) : AddTok(t)) \/ NewDoc \/ Finish
+Next == (\E t \in 0..(IF AllowMask THEN V ELSE V - 1) : AddTok(t)) \/ NewDoc \/ Finish
 Spec == Init /\ [][Next]_vars
 EmitInv == IF EMIT /\ done
            THEN PrintT(ToJson([corpus |-> corpus, ci |-> ci, cells |-> CellsJson(Cfgs[ci], Cells(Cfgs[ci], corpus))]))
